@@ -807,6 +807,12 @@ class _EndingState(_MasterSlaveState):
         """
         self._abort_jobs()
 
+    def _activate_instances(self) -> Optional[SupvisorsStates]:
+        """ Do NOT activate CHECKED instances while ending.
+        A Supvisors instance that (re-)joins at that time has no Master yet: once RUNNING, it would break the Master
+        consistence and force the FINAL state before the Master has stopped all the applications. """
+        return None
+
     def _check_consistence(self) -> Optional[SupvisorsStates]:
         """ Force the ending process if the local or Master Supvisors instance is lost.
 
